@@ -173,6 +173,10 @@ MUTANTS = [
     ("htp-outer-grad-loses-argnum", {"C16": "A15.products", "C08": "A15.products"}, [(DO, "    return grad(vector_dot_grad, argnum)", "    return grad(vector_dot_grad)")]),
     ("power-jvp-guard-dropped", {"C07": "A5", "C04": "A5"}, [(NJ, "    lambda g, ans, x, y: g * y * x ** anp.where(y, y - 1, 1.0),", "    lambda g, ans, x, y: g * y * x ** (y - 1),")]),
     ("single-thread-fast-path-counter", {"C20": "A12.bal", "C08": "A12.bal"}, [(TR, "        self.top += 1\n        yield self.top\n        self.top -= 1", "        stack = self if threading.active_count() > 1 else _single_threaded\n        stack.top += 1\n        yield stack.top\n        stack.top -= 1"), (TR, "trace_stack = TraceStack()", "class _Counter:\n    top = -1\n\n\n_single_threaded = _Counter()\ntrace_stack = TraceStack()")]),
+    ("moveaxis-vjp-not-inverted", {"C01": "A16"}, [(NV, "lambda g: anp.moveaxis(g, destination, source)", "lambda g: anp.moveaxis(g, source, destination)")]),
+    ("transpose-vjp-no-argsort", {"C01": "A16"}, [(NV, "axes = anp.argsort([axis % len(axes) for axis in axes])", "axes = [axis % len(axes) for axis in axes]")]),
+    ("rollaxis-vjp-off-by-one", {"C01": "A16"}, [(NV, "anp.rollaxis(g, start - 1, axis) if start > axis else anp.rollaxis(g, start, axis + 1)", "anp.rollaxis(g, start, axis) if start > axis else anp.rollaxis(g, start, axis + 1)")]),
+    ("norm-jvp-moveaxis-stale-adjust", {"C02": "A16.norm", "C01": "A16.norm"}, [(LA, "            roll = lambda a: anp.rollaxis(anp.rollaxis(a, col_axis, a.ndim), row_axis, a.ndim - 1)\n            # Roll matrix axes to their original position\n            unroll = lambda a: anp.rollaxis(anp.rollaxis(a, a.ndim - 2, row_axis), a.ndim - 1, col_axis)\n\n    check_implemented()\n    if ord in", "            roll = lambda a: anp.moveaxis(a, (row_axis, col_axis), (-2, -1))\n            # Roll matrix axes to their original position\n            unroll = lambda a: anp.moveaxis(a, (-2, -1), (row_axis, col_axis))\n\n    check_implemented()\n    if ord in")]),
     ("container-space-loses-subval", {"C12": "A1.spaces"}, [(BU, "    def _subval(self, xs, idx, x):\n        d = dict(xs.items())\n        d[idx] = x\n        return d\n", "")]),
 ]
 
@@ -213,6 +217,8 @@ BENIGN = [
     ("extend-right-slice-via-len-g", [(BU, "    return lambda g: g[: len(seq)] if argnum == 0 else g[len(seq) + argnum - 1]", "    return lambda g: g[: len(g) - len(elts)] if argnum == 0 else g[len(seq) + argnum - 1]")]),
     ("array-vspace-init-asanyarray", [(NS, "        value = np.asarray(value)\n        self.shape = value.shape\n        self.dtype = value.dtype", "        arr = np.asarray(value)\n        self.dtype = arr.dtype\n        self.shape = arr.shape")]),
     ("whole-package-reprinted-with-ast-unparse", [("<reprint>", "", "")]),
+    ("swapaxes-vjp-same-order", [(NV, "lambda g: anp.swapaxes(g, axis2, axis1)", "lambda g: anp.swapaxes(g, axis1, axis2)")]),
+    ("moveaxis-vjp-keywords", [(NV, "lambda g: anp.moveaxis(g, destination, source)", "lambda g: anp.moveaxis(g, source=destination, destination=source)")]),
     ("where-with-zeros-like", [(NV, "    lambda ans, c, x=None, y=None: unbroadcast_f(x, lambda g: anp.where(c, g, anp.zeros(g.shape))),", "    lambda ans, c, x=None, y=None: unbroadcast_f(x, lambda g: anp.where(c, g, anp.zeros_like(g))),")]),
 ]
 
